@@ -18,9 +18,10 @@ source text, and hand them to the translator as the results of a one-statement f
   `if end_val: subtable.end = subtable.end.clip(upper=end_val)`, read per row: the TEST expressions (Python truthiness:
   a bound equal to 0 does not clip) and the clipped columns are taken from the source and handed over as
   `max(col, bound) if <test> else col` / `min(col, bound) if <test> else col`.
-What does NOT fit (reported, not translated): subtract._subtraction's edge cases (array slicing `ex_ends[:-1]`,
-`np.r_`, a generator with `continue`), _irange_simple / _irange_nested (searchsorted, slice assignment
-`region_mask[:i] = 0`, zip over arrays), the loop of _split_targets that emits the bins."""
+The loops themselves (subtract._subtraction's iteration with its edge cases, np.r_, slicing and the inner zip loop;
+_irange_nested / iter_ranges / iter_slices one iteration at a time; the bin loop of _split_targets; merge.py's group
+breaks, fast paths, _squash_tuples and _flatten_tuples) are translated by tools/fnspecs/iv_loops.py (C06) and
+tools/fnspecs/ranges_loops.py (C07); still outside: _irange_simple (searchsorted over whole key arrays)."""
 import ast, os, sys
 
 
